@@ -1550,6 +1550,8 @@ _EXT = {
     "itertools.cycle": _cycle, "itertools.chain": _chain, "itertools.chain.from_iterable": _chain_from_iterable,
     "operator.itemgetter": _itemgetter, "typing.cast": _cast, "warnings.warn": _warn,
     "unicodedata.normalize": _unicodedata_normalize,
+    # a read-only view: the mapping itself (the model never writes through it; a write attempt in the tree would be a TypeError there)
+    "types.MappingProxyType": lambda it, a, k, n: a[0],
     "pycountry.countries.get": _pycountry_get, "collections.defaultdict": _defaultdict,
     "pycountry.historic_countries.get": _pycountry_other("historic_countries"), "pycountry.countries.lookup": _pycountry_other("countries.lookup"),
     "pycountry.historic_countries.lookup": _pycountry_other("historic_countries.lookup"),
